@@ -235,7 +235,8 @@ def argtopk(a_plus_idx, k, axis, keepdims):
         a, idx = a_plus_idx
 
     if abs(k) >= a.shape[axis]:
-        return a_plus_idx
+        # Everything is selected; a_plus_idx may be a list of pairs at this point
+        return a, idx
 
     idx2 = np.argpartition(a, -k, axis=axis)
     k_slice = slice(-k, None) if k > 0 else slice(-k)
